@@ -50,6 +50,8 @@ ElseClauses(L) ==
   \cup { << Comp("whileelse", <<a, b>>) >> : a \in in, b \in in }
 Conds(L) == { << Comp("cond", << <<Ret(a)>>, <<Ret(b)>> >>) >> : a \in L, b \in L }
             \cup { << Comp("cond3", << <<Ret(a)>>, <<Ret(b)>>, <<Ret(c)>> >>) >> : a \in L, b \in L, c \in L \cap {1, 3, 5} }   \* x if c else (y if d else z)
+            \cup { << Comp("cond3l", << <<Ret(a)>>, <<Ret(b)>>, <<Ret(c)>> >>) >> : a \in L \cap {1, 3, 5}, b \in L, c \in L }  \* (x if c else y) if d else z
+            \cup { << Comp("cond4", << <<Ret(a)>>, <<Ret(b)>>, <<Ret(c)>>, <<Ret(e)>> >>) >> : a \in L \cap {1, 5}, b \in L \cap {2, 3}, c \in L \cap {4, 5, 1}, e \in L \cap {3, 2, 6} }   \* both branches are conditional expressions
 Elifs(L) == { << Comp("ifelif", << <<Ret(a)>>, <<Ret(b)>>, <<Ret(c)>> >>) >> : a \in L, b \in L, c \in L }
 
 Bodies(tier) ==
